@@ -309,9 +309,14 @@ pub async fn run_server_case(c: &ServerCase) -> Result<(bool, Vec<u8>, usize), S
         }
     };
     let peer_ip = if v6 { format!("[{}]", c.peer) } else { c.peer.clone() };
-    let tcp = connect_from(&peer_ip, addr).await;
     let mut received: Vec<u8> = vec![];
     let mut served = false;
+    // a peer that is not served tries again: the filter applies to every connection, not to the first
+    for _attempt in 0..2 {
+    if served {
+        break;
+    }
+    let tcp = connect_from(&peer_ip, addr).await;
     match tcp {
         Err(_) => {}
         Ok(mut tcp) => {
@@ -320,9 +325,9 @@ pub async fn run_server_case(c: &ServerCase) -> Result<(bool, Vec<u8>, usize), S
                 match read_n(&mut tcp, 13, Duration::from_millis(1500)).await {
                     ReadOutcome::Bytes(b) => {
                         served = b[..2] == [0x0A, 0x0A];
-                        received = b;
+                        received.extend(b);
                     }
-                    ReadOutcome::Eof(b) | ReadOutcome::Error(_, b) | ReadOutcome::Timeout(b) => received = b,
+                    ReadOutcome::Eof(b) | ReadOutcome::Error(_, b) | ReadOutcome::Timeout(b) => received.extend(b),
                 }
             } else {
                 // a ServerHello is already "processing TLS bytes": drive a real handshake
@@ -330,7 +335,7 @@ pub async fn run_server_case(c: &ServerCase) -> Result<(bool, Vec<u8>, usize), S
                 let name = tokio_rustls::rustls::pki_types::ServerName::try_from("test.com").unwrap();
                 match tokio::time::timeout(Duration::from_millis(1500), connector.connect(name, tcp)).await {
                     Ok(Ok(mut tls)) => {
-                        received = b"<server hello>".to_vec();
+                        received.extend(b"<server hello>");
                         write_all(&mut tls, &mbap_frame(0x0A0A, 1, &SENTINEL)).await;
                         if let ReadOutcome::Bytes(b) = read_n(&mut tls, 13, Duration::from_millis(1500)).await {
                             served = b[..2] == [0x0A, 0x0A];
@@ -340,13 +345,14 @@ pub async fn run_server_case(c: &ServerCase) -> Result<(bool, Vec<u8>, usize), S
                         // an alert from the server also means that it processed our ClientHello
                         let msg = e.to_string();
                         if msg.contains("alert") {
-                            received = format!("<{msg}>").into_bytes();
+                            received.extend(format!("<{msg}>").into_bytes());
                         }
                     }
                     Err(_) => {}
                 }
             }
         }
+    }
     }
     tokio::time::sleep(Duration::from_millis(5)).await;
     let calls = log.lock().unwrap().len();
@@ -459,7 +465,7 @@ pub fn check_c16(tier: &str) -> i32 {
         "C16",
         tier,
         "exploration",
-        "(1) wildcard parser: all strings up to length L over {* . 0 1 2 5 6 9 space - a} plus all four-field strings over 15 boundary fields, against the grammar 'four dot-separated fields, each * or a decimal number 0..=255'; accepted values are observed through the matcher; (2) matcher: every wildcard with fields in {*,0,1,127,128,255} x every IPv4 address with octets in {0,1,127,128,255} + IPv6 addresses; Any / Exact / AnyOf of size 0..3; (3) servers: {TCP, TLS, TLS+authz} x {create_*, spawn_*} x 6 filters x peers bound to 127.0.0.1, 127.0.0.2, 127.0.1.2, 127.0.0.3, ::1: a matching peer is served, a non-matching peer receives zero bytes and reaches no handler; (4) the same through the C ABI (see the C-ABI phase). distinct = distinct accepted strings / filter-address pairs / server cells",
+        "(1) wildcard parser: all strings up to length L over {* . 0 1 2 5 6 9 space - a} plus all four-field strings over 15 boundary fields, against the grammar 'four dot-separated fields, each * or a decimal number 0..=255'; accepted values are observed through the matcher; (2) matcher: every wildcard with fields in {*,0,1,127,128,255} x every IPv4 address with octets in {0,1,127,128,255} + IPv6 addresses; Any / Exact / AnyOf of size 0..3; (3) servers: {TCP, TLS, TLS+authz} x {create_*, spawn_*} x 6 filters x peers bound to 127.0.0.1, 127.0.0.2, 127.0.1.2, 127.0.0.3, ::1: a matching peer is served, a non-matching peer receives zero bytes and reaches no handler on two connection attempts in a row; (4) the same through the C ABI (see the C-ABI phase). distinct = distinct accepted strings / filter-address pairs / server cells",
     );
     parser_phase(&mut rep);
     matcher_phase(&mut rep);
